@@ -322,6 +322,14 @@ func (inc *incarnation) react(a k8stesting.Action) (bool, runtime.Object, error)
 	if h.faultsOn {
 		f = h.r.Src.Weighted([]int{1000 - h.pConflict - h.pErrBefore - h.pCommitErr, h.pConflict, h.pErrBefore, h.pCommitErr}, "api_fault")
 	}
+	if (f == 1 || f == 2) && sub == "status" {
+		if st := h.api.pools[obj.Name]; st != nil && isTrue(st) && !isTrue(obj) && !st.Spec.Disabled && st.DeletionTimestamp == nil {
+			h.r.Probe("failed_write_would_have_disabled_allocatable_pool")
+			if h.ownedBlocks(string(st.UID)) > 0 && hasFin(st.Finalizers) {
+				h.r.Probe("failed_write_would_have_disabled_allocatable_pool_with_blocks")
+			}
+		}
+	}
 	switch f {
 	case 1:
 		inc.passFailed = true
